@@ -88,6 +88,20 @@ func needsBuilding(state *core.BuildState, target *core.BuildTarget, postBuild b
 			return true
 		}
 	}
+	// Likewise any optional outputs that were recorded for it. The declared outputs can come out of the
+	// cache with their hashes already on them, so if we were interrupted before fetching the optional
+	// ones everything above looks fine.
+	if len(target.OptionalOutputs) > 0 {
+		if md, err := loadTargetMetadata(target); err == nil {
+			for _, output := range md.OptionalOutputs {
+				realOutput := filepath.Join(target.OutDir(), output)
+				if !core.PathExists(realOutput) {
+					log.Debug("Optional output %s doesn't exist for rule %s; will rebuild.", realOutput, target.Label)
+					return true
+				}
+			}
+		}
+	}
 	// Maybe we've forced a rebuild. Do this last; might be interesting to see if it needed building anyway.
 	return state.ShouldRebuild(target)
 }
